@@ -34,6 +34,9 @@ pub enum AEv {
     /// peer k answers its oldest PING with the given sequence number
     Pong(u8, u64),
     Fail(u8),
+    /// peer k answers its oldest outstanding request with WHOAREYOU: the handler reports the
+    /// session with the record of the contact the service dialled (what `handle_challenge` does)
+    Challenge(u8),
 }
 
 #[derive(Clone, Debug)]
@@ -42,6 +45,8 @@ pub struct ACfg {
     pub filter: u8, // 0 accept all, 1 reject records carrying the marker, 2 accept only 10.0.0.0/8
     pub shapes: Vec<u8>,
     pub seed: Vec<AEv>,
+    /// query parallelism (None: the default 3)
+    pub parallelism: Option<usize>,
 }
 
 fn filter_marker(e: &Enr) -> bool {
@@ -118,12 +123,20 @@ async fn run_async(cfg: &ACfg, hist: &[AEv]) -> Outcome<AEv> {
     };
     let filt = filter_fn(cfg.filter);
     let local_enr = shape_record(LOCAL, 3);
-    let mut node = SNode::start(SNodeSpec { keyno: LOCAL, listen, enr: Some(local_enr.clone()) }, |b| { b.table_filter(filt); }, false).await;
+    let mut node = SNode::start(SNodeSpec { keyno: LOCAL, listen, enr: Some(local_enr.clone()) }, |b| {
+        b.table_filter(filt);
+        if let Some(p) = cfg.parallelism {
+            b.query_parallelism(p);
+        }
+    }, false).await;
     let ids: Vec<NodeId> = KEYS.iter().map(|k| util::node_id(&util::key(*k))).collect();
     let mut out: Vec<Outstanding> = (0..2).map(|_| Outstanding { lookups: vec![], enr_reqs: vec![], pings: vec![] }).collect();
     let mut admitted: BTreeSet<usize> = BTreeSet::new(); // keys with an Established / add_enr in the history
     let mut lookups: Vec<tokio::task::JoinHandle<Result<Vec<Enr>, discv5::QueryError>>> = vec![];
     let mut sent_to: BTreeMap<Vec<u8>, SocketAddr> = BTreeMap::new();
+    // per request: the record of the contact the service dialled, and the sequence number the table
+    // stored for that node when the request was issued
+    let mut dialled: BTreeMap<Vec<u8>, (Option<Enr>, Option<u64>)> = BTreeMap::new();
     let mut chain = vec![];
     let mut prev = None;
     let mut violation: Option<Violation> = None;
@@ -141,6 +154,7 @@ async fn run_async(cfg: &ACfg, hist: &[AEv]) -> Outcome<AEv> {
         clock::advance(std::time::Duration::from_millis(10));
         let before: HashMap<NodeId, Enr> = node.discv5.table_entries().into_iter().map(|(id, e, _)| (id, e)).collect();
         let mut learnt_from_nodes = false;
+        let mut challenge: Option<(Enr, Option<u64>)> = None;
         match ev {
             AEv::Established(k, s, outgoing) => {
                 let e = shape_record(KEYS[*k as usize], *s);
@@ -167,10 +181,32 @@ async fn run_async(cfg: &ACfg, hist: &[AEv]) -> Outcome<AEv> {
             AEv::Disconnect(k) => {
                 node.discv5.disconnect_node(&ids[*k as usize]);
             }
+            AEv::Lookup(k) if *k == 2 => {
+                // a target to which peer 0 is closer than peer 1, and such that peer 1's record is at a
+                // distance requested from peer 0: peer 0's id with the bit below the highest bit in
+                // which the two peers differ flipped
+                let (a, x) = (ids[0].raw(), ids[1].raw());
+                let hi = (0..256usize).rev().find(|b| ((a[31 - b / 8] ^ x[31 - b / 8]) >> (b % 8)) & 1 == 1).unwrap_or(255);
+                let mut t = a;
+                let b = hi.saturating_sub(1);
+                t[31 - b / 8] ^= 1 << (b % 8);
+                lookups.push(tokio::spawn(node.discv5.find_node(NodeId::new(&t))));
+                rt::settle().await;
+            }
             AEv::Lookup(k) => {
                 // a lookup whose target is key k, so that k's record is at a requested distance of the other peer
                 lookups.push(tokio::spawn(node.discv5.find_node(ids[*k as usize])));
                 rt::settle().await;
+            }
+            AEv::Challenge(k) => {
+                let o = &out[*k as usize];
+                let id = if !o.lookups.is_empty() { o.lookups[0].0.clone() } else if !o.enr_reqs.is_empty() { o.enr_reqs[0].clone() } else { o.pings[0].clone() };
+                if let Some((Some(rec), at_issue)) = dialled.get(&id.0).cloned() {
+                    admitted.insert(*k as usize);
+                    challenge = Some((rec.clone(), at_issue));
+                    let to = sent_to.get(&id.0).copied().unwrap_or_else(|| src_of(&rec, *k as usize));
+                    node.inject(HandlerOut::Established(rec, to, v::ConnectionDirection::Outgoing)).await;
+                }
             }
             AEv::Nodes(k, rk, s) => {
                 let (id, _d) = out[*k as usize].lookups.remove(0);
@@ -211,6 +247,8 @@ async fn run_async(cfg: &ACfg, hist: &[AEv]) -> Outcome<AEv> {
         for hin in node.drain_handler_in() {
             if let HandlerIn::Request(contact, req) = hin {
                 sent_to.insert(req.id.0.clone(), contact.socket_addr());
+                let stored = node.discv5.table_entries().into_iter().find(|(id, _, _)| *id == contact.node_id()).map(|(_, e, _)| e.seq());
+                dialled.insert(req.id.0.clone(), (contact.enr(), stored));
                 if let Some(k) = ids.iter().position(|i| *i == contact.node_id()) {
                     match &req.body {
                         v::RequestBody::FindNode { distances } if distances == &vec![0] => out[k].enr_reqs.push(req.id.clone()),
@@ -256,6 +294,19 @@ async fn run_async(cfg: &ACfg, hist: &[AEv]) -> Outcome<AEv> {
             if e.node_id() != *id {
                 violation = Some(mk("an entry's record belongs to its node id", "admit:foreign-record", format!("{}", util::short(id))));
             }
+            // a session reported with the record the service itself dialled: when the service stored a
+            // newer record of that node at the time it dialled, the older one it dialled with was a
+            // copy learnt from the network (held by a query), and it must not replace the stored one
+            if let Some((rec, Some(at_issue))) = &challenge {
+                if rec.node_id() == *id {
+                    *counters.entry("challenges_on_stored_nodes").or_insert(0) += 1;
+                    if let Some(old) = before.get(id) {
+                        if e.seq() < old.seq() && rec.seq() < *at_issue {
+                            violation = Some(mk("a record learnt from the network replaces a stored one only with a strictly higher sequence number", "admit:replace-seq", format!("{}: stored seq {} replaced by seq {} — the service dialled the node with a record older than the one it stored (seq {} at the time)", util::short(id), old.seq(), e.seq(), at_issue)));
+                        }
+                    }
+                }
+            }
         }
         *counters.entry("entries_checked").or_insert(0) += after.len() as u64;
         let mut view: Vec<(NodeId, u64, bool)> = after.iter().map(|(id, e, s)| (*id, e.seq(), s.is_connected())).collect();
@@ -299,6 +350,7 @@ async fn run_async(cfg: &ACfg, hist: &[AEv]) -> Outcome<AEv> {
             }
             if !o.lookups.is_empty() || !o.enr_reqs.is_empty() || !o.pings.is_empty() {
                 enabled.push(AEv::Fail(k));
+                enabled.push(AEv::Challenge(k));
             }
             if lookups.len() < 1 {
                 enabled.push(AEv::Lookup(k));
@@ -433,11 +485,16 @@ pub fn run() {
                     _ => vec![0, 1, 2, 3, 4, 5],
                 }
             };
-            cfgs.push(ACfg { mode, filter, shapes: shapes.clone(), seed: vec![] });
+            cfgs.push(ACfg { mode, filter, shapes: shapes.clone(), seed: vec![], parallelism: None });
             // from a populated table with a lookup in flight
             let s0 = shapes[0];
             let s1 = if mode == 1 { 2 } else { s0 };
-            cfgs.push(ACfg { mode, filter, shapes, seed: vec![AEv::Established(0, s1, true), AEv::Established(1, s1, false), AEv::Lookup(1)] });
+            cfgs.push(ACfg { mode, filter, shapes, seed: vec![AEv::Established(0, s1, true), AEv::Established(1, s1, false), AEv::Lookup(1)], parallelism: None });
+            // a lookup that reaches the second peer only after the first has answered (parallelism 1)
+            if filter == 0 {
+                let shapes: Vec<u8> = cfgs.last().unwrap().shapes.clone();
+                cfgs.push(ACfg { mode, filter, shapes, seed: vec![AEv::Established(0, s1, true), AEv::Established(1, s1, false), AEv::Lookup(2)], parallelism: Some(1) });
+            }
         }
     }
     let depth = if thorough { 4 } else { 3 };
